@@ -79,7 +79,7 @@ def sigStep (d : DS) : List String → DS × List String
       | _ => (deliver s1 (nat! g), "raised")
     let s3 := runClosing { s2 with trace := [] } (nat! l)
     let d := { d with s := s3 }
-    (d, s1.trace.reverse.map showCb ++ [r] ++ s3.trace.reverse.map showCb ++ [s!"ran {nat! l}"] ++ obs d)
+    (d, s1.trace.reverse.map showCb ++ ["check"] ++ obs { d with s := s1 } ++ [r] ++ s3.trace.reverse.map showCb ++ [s!"ran {nat! l}"] ++ obs d)
   | ["start", h, g] => match hid? d h with
     | some i => doOp d (.start i (nat! g))
     | none => (d, ["bad-op"])
